@@ -22,8 +22,8 @@ CONSTANTS Deep,     \* TRUE: more histories
 
 \* (the quoted word makes the smart-quote option observable; it never gets an auto-correct entry of its own)
 Quoted == "\"as'"
-AllWords == {"as", "onno", "academy", Quoted}
-Words == IF Twice THEN {"as", "academy", Quoted} ELSE IF Deep THEN AllWords ELSE {"as", "onno", Quoted}
+AllWords == {"as", "help", "academy", Quoted}
+Words == IF Twice THEN {"as", "academy", Quoted} ELSE IF Deep THEN AllWords ELSE {"as", "help", Quoted}
 EditWords == Words \ {Quoted}
 
 PC(sug, eng, smart, ansi) ==
@@ -37,7 +37,8 @@ FC(lay, sug, eng, vowel, ko) ==
 AllConfigs == {PC(TRUE, FALSE, TRUE, FALSE), PC(TRUE, TRUE, FALSE, FALSE), PC(FALSE, FALSE, TRUE, FALSE), PC(TRUE, FALSE, TRUE, TRUE),
                FC("probhat", TRUE, TRUE, TRUE, FALSE), FC("synth", TRUE, TRUE, TRUE, FALSE), FC("probhat", FALSE, FALSE, FALSE, TRUE),
                FC("probhat2", FALSE, TRUE, TRUE, FALSE)}
-FewConfigs == {PC(TRUE, FALSE, TRUE, FALSE), PC(TRUE, TRUE, FALSE, FALSE), FC("probhat", TRUE, TRUE, TRUE, FALSE), FC("probhat2", FALSE, FALSE, FALSE, TRUE)}
+FewConfigs == {PC(TRUE, FALSE, TRUE, FALSE), PC(TRUE, TRUE, FALSE, FALSE), PC(TRUE, FALSE, TRUE, TRUE),
+               FC("probhat", TRUE, TRUE, TRUE, FALSE), FC("probhat2", FALSE, FALSE, FALSE, TRUE)}
 TwiceConfigs == {PC(TRUE, FALSE, TRUE, FALSE), PC(FALSE, FALSE, TRUE, FALSE), FC("probhat", TRUE, TRUE, TRUE, FALSE)}
 Configs == IF Twice THEN TwiceConfigs ELSE IF Deep THEN AllConfigs ELSE FewConfigs
 MaxEdits == IF Deep THEN 2 ELSE 1
